@@ -85,7 +85,7 @@ type WOpts struct {
 }
 
 var WireFeatures = []string{"bind", "bind-value-impl", "value", "ivalue", "struct", "struct-fields", "struct-value-consumer", "fieldsof", "fieldsof-value", "fieldsof-ptr",
-	"sets", "nested-sets", "inline-sets", "inline-sets-deep", "struct-unexported-field", "ext-alias-suffix", "ext-name-differs-from-path", "composite", "same-name-packages-across-files", "fieldsof-twice", "second-injector", "twin-types-in-same-named-packages", "value-ext-var", "build-in-panic", "wire-import-alias", "wire-legacy-build-tag", "wire-sets-in-var-block", "value-ext-nested-selector", "decoy-constructor-in-migrated-package", "struct-in-ext-package", "fieldsof-in-ext-package", "err", "args", "unused-arg", "multi-file", "ext", "bind-foreign-ctor", "bind-split-set", "multi-result"}
+	"sets", "nested-sets", "inline-sets", "inline-sets-deep", "struct-unexported-field", "ext-alias-suffix", "ext-name-differs-from-path", "composite", "same-name-packages-across-files", "fieldsof-twice", "second-injector", "twin-types-in-same-named-packages", "value-ext-var", "build-in-panic", "named-alias", "wire-import-alias", "wire-legacy-build-tag", "wire-sets-in-var-block", "value-ext-nested-selector", "decoy-constructor-in-migrated-package", "struct-in-ext-package", "fieldsof-in-ext-package", "err", "args", "unused-arg", "multi-file", "ext", "bind-foreign-ctor", "bind-split-set", "multi-result"}
 
 func WAllowAll(except ...string) map[string]bool {
 	m := map[string]bool{}
@@ -137,6 +137,16 @@ func (g *wgen) want(f, label string, pct int) bool {
 
 // extTypeName: type names are unique per external package only, so two packages called util
 // can both declare a type Eaa (resolution must key on the full package path).
+// aliasName draws the name of an alias through which a local named type is spelled in the user
+// files ("" = none).
+func (g *wgen) aliasName() string {
+	if !g.o.Allow["named-alias"] || rapid.IntRange(0, 5).Draw(g.rt, "named-alias") != 5 {
+		return ""
+	}
+	g.w.AddFeature("named-alias")
+	return g.name("H")
+}
+
 func (g *wgen) extTypeName(pkg string) string {
 	k := "ext:" + pkg
 	n := g.seq[k]
@@ -227,7 +237,20 @@ func (g *wgen) freshType(pkg string) TypeID {
 			if rapid.Bool().Draw(g.rt, "compptr") {
 				s = g.ptrTo(s)
 			}
-			switch rapid.IntRange(0, 3).Draw(g.rt, "compkind") {
+			switch rapid.IntRange(0, 6).Draw(g.rt, "compkind") {
+			case 4:
+				// func(K) T
+				g.w.AddFeature("composite-func")
+				ks := g.addType(Type{Kind: KBasic, Basic: "string"})
+				return g.addType(Type{Kind: KFunc, Elem: s, Key: ks, HasKey: true})
+			case 5:
+				g.w.AddFeature("composite-func")
+				return g.addType(Type{Kind: KFunc, Elem: s})
+			case 6:
+				// instantiated generic type Box[T]
+				g.w.AddFeature("composite-generic")
+				g.used["Box"] = true
+				return g.addType(Type{Kind: KGeneric, Name: "Box", Elem: s})
 			case 0:
 				return g.addType(Type{Kind: KSlice, Elem: s})
 			case 1:
@@ -241,6 +264,9 @@ func (g *wgen) freshType(pkg string) TypeID {
 		}
 		return g.ptrTo(g.addType(Type{Kind: KStruct, Name: structName(), Pkg: pkg}))
 	case 0:
+		if pkg == "" {
+			return g.addType(Type{Kind: KStruct, Name: structName(), AliasSpell: g.aliasName()})
+		}
 		return g.addType(Type{Kind: KStruct, Name: structName(), Pkg: pkg})
 	case 1:
 		if pkg == "" {
@@ -338,7 +364,7 @@ func GenWire(rt *rapid.T, o WOpts) *WCase {
 				g.twinWant = append(g.twinWant, res)
 			}
 			if key == "ext" {
-				it := g.addType(Type{Kind: KIface, Name: g.name("I"), Impl: res})
+				it := g.addType(Type{Kind: KIface, Name: g.name("I"), Impl: res, AliasSpell: g.aliasName()})
 				g.c.Types[int(it)].Method = "VH" + g.c.T(it).Name
 				g.addUnit(WElem{Kind: "bind", Iface: it, Impl: res}, []TypeID{res}, []TypeID{it})
 				g.twinWant = append(g.twinWant, it)
@@ -373,7 +399,7 @@ func GenWire(rt *rapid.T, o WOpts) *WCase {
 			g.addUnit(WElem{Kind: "value", Type: t, Var: g.name("val"), H: uint32(rapid.IntRange(1, 1<<20).Draw(rt, "h"))}, nil, []TypeID{t})
 		case !last && k < 14 && g.want("ivalue", "isivalue", 100):
 			s := g.addType(Type{Kind: KStruct, Name: g.name("T")})
-			it := g.addType(Type{Kind: KIface, Name: g.name("I"), Impl: s})
+			it := g.addType(Type{Kind: KIface, Name: g.name("I"), Impl: s, AliasSpell: g.aliasName()})
 			g.c.Types[int(it)].Method = "VH" + g.c.T(it).Name
 			g.addUnit(WElem{Kind: "ivalue", Iface: it, Type: s, Var: g.name("ival"), H: uint32(rapid.IntRange(1, 1<<20).Draw(rt, "h"))}, nil, []TypeID{it})
 		case !last && k < 26 && len(g.supplied) > 0 && g.want("struct", "isstruct", 100):
@@ -483,7 +509,7 @@ func (g *wgen) genProv(last bool) {
 			if g.want("bind-foreign-ctor", "foreignctor", 20) {
 				p.Name = g.name("Provide" + base)
 			}
-			it := g.addType(Type{Kind: KIface, Name: g.name("I"), Impl: res})
+			it := g.addType(Type{Kind: KIface, Name: g.name("I"), Impl: res, AliasSpell: g.aliasName()})
 			g.c.Types[int(it)].Method = "VH" + g.c.T(it).Name
 			g.c.Provs = append(g.c.Provs, p)
 			g.addUnit(e, p.Params, prov)
